@@ -17,6 +17,7 @@
 -/
 import YashModel.Pipe.Progress
 import YashModel.Pipe.FdLemmas
+import YashModel.Pipe.FileLemmas
 namespace YashModel.Pipe
 
 variable {α : Type}
@@ -360,6 +361,69 @@ theorem pipeline_shift_inv (t : Table) (ps : PipeSet) (p q q' : Nat)
 theorem pipeline_init_inv (t : Table) (p q : Nat) (hp : t.Fresh p) (hq : t.Fresh q) (hpq : p ≠ q) :
     PInv t {} p q := pinv_init t p q hp hq hpq
 
+/-! ### here-documents: the body reaches standard input byte for byte -/
+
+/-- ★ Here-document delivery (`here_doc::open_fd` / `fill_content`): for every body, writing its
+    bytes to the new temporary file and rewinding to offset 0 leaves a description whose file holds
+    exactly `utf8 body` at offset 0; whatever buffer sizes the reader uses, what it has received
+    after any number of `read`s is the prefix of `utf8 body` of the total size asked for — the same
+    bytes, in order, nothing skipped — and therefore all of `utf8 body` as soon as it has asked for
+    at least that many, after which `read` returns 0 bytes. -/
+theorem heredoc_delivers_bytes (body : List Char) :
+    ∃ o, heredocFill (utf8 body) = some o ∧ o.content = utf8 body ∧ o.offset = 0 ∧
+      (∀ ns : List Nat, (o.reads ns).1 = (utf8 body).take ns.sum) ∧
+      (∀ ns : List Nat, (utf8 body).length ≤ ns.sum →
+        (o.reads ns).1 = utf8 body ∧ ∀ n, ((o.reads ns).2.read n).1 = []) := by
+  refine ⟨{ content := utf8 body, offset := 0 }, ?_, rfl, rfl, ?_, ?_⟩
+  · simp [heredocFill, RegOfd.seek, RegOfd.write, RegOfd.tmpfile]
+  · intro ns
+    simpa using (reads_spec { content := utf8 body, offset := 0 } ns).1
+  · intro ns hs
+    have h := reads_spec { content := utf8 body, offset := 0 } ns
+    simp only [List.drop_zero, Nat.zero_add] at h
+    refine ⟨by rw [h.1, List.take_of_length_le hs], fun n => ?_⟩
+    rw [h.2, List.take_of_length_le hs]
+    simp [RegOfd.read]
+
+/-- Why the rewind must be in *bytes*: rewinding (relative to the end of what was written) by the
+    number of *characters* makes the reader see `utf8 body` without its first
+    `|utf8 body| − |body|` bytes; that is a different byte string whenever the body contains a
+    character outside ASCII (`2 ≤ utf8Size`) … -/
+theorem heredoc_char_rewind_differs (body : List Char) (h : ∃ c ∈ body, 2 ≤ c.utf8Size) :
+    ∃ o, heredocFillBack (utf8 body) body.length = some o ∧
+      ∀ ns : List Nat, (utf8 body).length ≤ ns.sum →
+        (o.reads ns).1 = (utf8 body).drop ((utf8 body).length - body.length) ∧
+        (o.reads ns).1 ≠ utf8 body := by
+  have hlt := utf8_length_gt body h
+  have hoff : (0 : Int) ≤ ((utf8 body).length : Int) + -(body.length : Int) := by omega
+  refine ⟨{ content := utf8 body, offset := (utf8 body).length - body.length }, ?_, ?_⟩
+  · simp only [heredocFillBack, RegOfd.seek, RegOfd.write, RegOfd.tmpfile, List.length_nil, Nat.sub_self,
+      List.replicate_zero, List.append_nil, List.take_nil, List.nil_append, List.drop_nil, Nat.zero_add, hoff, if_true]
+    congr 2
+    omega
+  · intro ns hs
+    have h1 := (reads_spec { content := utf8 body, offset := (utf8 body).length - body.length } ns).1
+    simp only at h1
+    have hl : ((utf8 body).drop ((utf8 body).length - body.length)).length ≤ ns.sum := by
+      simp only [List.length_drop]; omega
+    rw [List.take_of_length_le hl] at h1
+    refine ⟨h1, fun he => ?_⟩
+    have := congrArg List.length (h1.symm.trans he)
+    simp only [List.length_drop] at this
+    omega
+
+/-- … and the very same byte string when the body is pure ASCII — which is why only bodies with
+    multi-byte characters can tell the two apart. -/
+theorem heredoc_char_rewind_ascii_same (body : List Char) (h : ∀ c ∈ body, c.utf8Size = 1) :
+    heredocFillBack (utf8 body) body.length = heredocFill (utf8 body) := by
+  have hl := utf8_length_ascii body h
+  simp only [heredocFillBack, heredocFill, RegOfd.seek, RegOfd.write, RegOfd.tmpfile, List.length_nil,
+    Nat.sub_self, List.replicate_zero, List.append_nil, List.take_nil, List.nil_append, List.drop_nil, Nat.zero_add, hl]
+  have : (0 : Int) ≤ (body.length : Int) + -(body.length : Int) := by omega
+  simp only [this, if_true]
+  congr 2
+  omega
+
 /-! ### non-vacuity and necessity of the hypotheses -/
 
 /-- a concrete reachable non-trivial state with the real capacity: 3000 bytes, the writer asks for
@@ -425,5 +489,16 @@ example :
     (ps.moveToStdinStdout t 3).map (fun t' => (t' 0, t' 1, t' 2, t' 3, t' 4)) =
       some (some (.pr 5), some (.pw 6), some .file, none, none) := by
   decide
+
+/-- the body of the seeded regression: `[東京] 😀 ok⏎` is 17 bytes for 10 characters; a character-count
+    rewind starts the reader 7 bytes late, at `] 😀 ok⏎` -/
+example :
+    let body := "[東京] 😀 ok\n".toList
+    (utf8 body).length = 17 ∧ body.length = 10 ∧
+    ((heredocFill (utf8 body)).map fun o => (o.reads [1024]).1) = some (utf8 body) ∧
+    ((heredocFillBack (utf8 body) body.length).map fun o => (o.reads [1024]).1) = some (utf8 "] 😀 ok\n".toList) := by
+  decide
+
+example : ∃ c ∈ "[東京] 😀 ok\n".toList, 2 ≤ c.utf8Size := ⟨'東', by decide, by decide⟩
 
 end YashModel.Pipe
